@@ -47,6 +47,11 @@ Models ==
                              inputs |-> <<InD("x", <<DSym, DFix(3), DFix(2)>>)>>, outputs |-> <<"y", "z">>,
                              inits |-> [wl |-> T("f32", <<4, 3>>, <<1, -1, 2, 0, 3, 1, -2, 1, 0, 1, 1, -1>>), wr |-> T("f32", <<2, 2>>, <<1, 2, -1, 3>>)]],
                       axis |-> 0, sample |-> <<3, 2>>, oaxes |-> <<0, 0>>],
+    \* default beta, (1, M) bias: nothing is stretched for a batch of one
+    gemm_row_bias |-> [g |-> [nodes |-> <<Nd("Gemm", <<>>, <<"x", "w", "c">>, <<"t">>), Nd("Relu", <<>>, <<"t">>, <<"y">>)>>,
+                          inputs |-> <<InD("x", <<DSym, DFix(3)>>)>>, outputs |-> <<"t", "y">>,
+                          inits |-> [w |-> T("f32", <<3, 2>>, <<1, -2, 0, 3, -1, 1>>), c |-> T("f32", <<1, 2>>, <<5, -5>>)]],
+                   axis |-> 0, sample |-> <<3>>, oaxes |-> <<0, 0>>],
     reshapes |-> [g |-> [nodes |-> <<Nd("Transpose", <<AIs("perm", <<0, 2, 1>>)>>, <<"x">>, <<"t">>), Nd("Squeeze", <<>>, <<"t", "ax">>, <<"s">>),
                                       Nd("Unsqueeze", <<>>, <<"s", "ax2">>, <<"u">>)>>,
                          inputs |-> <<InD("x", <<DSym, DFix(1), DFix(3)>>)>>, outputs |-> <<"t", "s", "u">>,
